@@ -30,6 +30,11 @@ import (
 	"testing"
 
 	sdkmath "cosmossdk.io/math"
+	storetypes "cosmossdk.io/store/types"
+	"github.com/cosmos/cosmos-sdk/baseapp"
+	"github.com/cosmos/cosmos-sdk/runtime"
+	"github.com/cosmos/cosmos-sdk/x/authz"
+	authzkeeper "github.com/cosmos/cosmos-sdk/x/authz/keeper"
 	"cosmossdk.io/x/tx/signing"
 	"github.com/cosmos/cosmos-sdk/codec"
 	addresscodec "github.com/cosmos/cosmos-sdk/codec/address"
@@ -657,6 +662,87 @@ func runOne(t *testing.T, run *emit.Run, s scen, fromCorpus bool) {
 	}
 }
 
+// runAuthzExec: the inner message is wrapped in an x/authz MsgExec whose grantee is the tx signer.
+// The top-level message carries no metadata, so the decorator as written skips it; authz accepts
+// an inner message whose signer is the grantee without any grant and hands it to the msg-service
+// router. Oracle only (nested dispatch is outside the Coq model).
+func runAuthzExec(t *testing.T, run *emit.Run, s scen) {
+	e := setup(t)
+	inner := s
+	inner.Kind = strings.TrimPrefix(s.Kind, "authz.MsgExec>")
+	b, err := e.build(t, inner)
+	if err != nil {
+		t.Fatalf("scenario %+v cannot be built: %v", s, err)
+	}
+	if len(s.Signers) != 1 {
+		t.Fatalf("authz scenario needs exactly one signer")
+	}
+	ir := shapeCdc.InterfaceRegistry()
+	authz.RegisterInterfaces(ir)
+	skywaytypes.RegisterInterfaces(ir)
+	treasurytypes.RegisterInterfaces(ir)
+	vtypes.RegisterInterfaces(ir)
+	evmtypes.RegisterInterfaces(ir)
+	router := baseapp.NewMsgServiceRouter()
+	router.SetInterfaceRegistry(ir)
+	skywaytypes.RegisterMsgServer(router, e.skyway)
+	treasurytypes.RegisterMsgServer(router, e.treasury)
+	vtypes.RegisterMsgServer(router, e.valset)
+	evmtypes.RegisterMsgServer(router, e.evm)
+	ak := authzkeeper.NewKeeper(runtime.NewKVStoreService(storetypes.NewKVStoreKey("authz")), shapeCdc, router, e.in.AccountKeeper)
+	exec := authz.NewMsgExec(e.actors[s.Signers[0]], []sdk.Msg{b.msg})
+	for _, g := range s.Grants {
+		if err := e.grant(g[0], g[1]); err != nil {
+			t.Fatal(err)
+		}
+	}
+	anteOK, aerr := e.ante(&exec)
+	o := obs{Ante: anteOK, Err: aerr}
+	if anteOK {
+		cctx, write := e.ctx.CacheContext()
+		before := e.scan(cctx)
+		func() {
+			defer func() {
+				if r := recover(); r != nil {
+					err = fmt.Errorf("panic: %v", r)
+				}
+			}()
+			_, err = ak.Exec(cctx, &exec)
+		}()
+		if err == nil {
+			write()
+			o.Ok = true
+			after := e.scan(e.ctx)
+			for i := 0; i < nActors; i++ {
+				if before[i] != after[i] {
+					o.Touched = append(o.Touched, i)
+				}
+			}
+		} else {
+			o.Err = "exec: " + err.Error()
+		}
+	}
+	run.Count("authz-exec", fmt.Sprintf("%s ante=%v ok=%v", inner.Kind, o.Ante, o.Ok))
+	if !o.Ok {
+		return
+	}
+	granted := false
+	for _, g := range s.Grants {
+		if g[0] == s.Creator && g[1] == s.Signers[0] {
+			granted = true
+		}
+	}
+	for _, p := range o.Touched {
+		if p == s.Signers[0] || (p == s.Creator && granted) {
+			continue
+		}
+		if p == s.Creator {
+			run.Violate("C03:authz-exec-bypasses-creator-check",
+				fmt.Sprintf("authz MsgExec(grantee %d){%s creator %d signers %v} signed by %d alone was executed and changed state attributed to %d", s.Signers[0], inner.Kind, s.Creator, s.Signers, s.Signers[0], p), s)
+		}
+	}
+}
+
 func TestCorr(t *testing.T) {
 	run := emit.Start("C03", 300)
 	run.Rule("one real delivery (ValidateBasic ;; VerifyAuthorisedSignatureDecorator with the real feegrant keeper ;; real msg server in a cache context) per case on a fresh five-validator environment; signer / creator / every named principal / grants / external signer drawn independently (≈55% name another principal, ≈15% hostile: no signer, non-address creator or field, foreign grants); plus the decorator alone on all 41 message types and the signer shape of all 41 from the real codec. Non-trivial = accepted, or names a principal other than the creator.")
@@ -683,6 +769,10 @@ func TestCorr(t *testing.T) {
 			t.Fatalf("%s: %v", f, err)
 		}
 		for _, s := range ss {
+			if strings.HasPrefix(s.Kind, "authz.MsgExec>") {
+				runAuthzExec(t, run, s)
+				continue
+			}
 			runOne(t, run, s, true)
 		}
 	}
